@@ -11,7 +11,12 @@ def run(tier, seed):
         "mc": [("C10_mc", ec.consts({1, 3}, {"fin", "free", "new", "once", "act", "loop", "basefree"}, 4 if q else 5, durs=(0, 1)))],
         "gen": [
             dict(name="C10_exh", consts=ec.consts({1, 3}, {"fin", "free", "once", "act", "add", "loop", "basefree", "script"},
-                                                  3 if q else 4, durs=(0, 1), scriptops={"free", "fin"})),
+                                                  3, durs=(0, 1), scriptops={"free", "fin"})),
+        ] + ([] if q else [
+            # depth 4 on one event (the depth-4 space over two events does not finish in the time budget)
+            dict(name="C10_exh4", consts=ec.consts({3}, {"fin", "free", "once", "act", "add", "loop", "basefree", "script"},
+                                                   4, durs=(0, 1), scriptops={"free", "fin"})),
+        ]) + [
             dict(name="C10_rand", consts=ec.consts({1, 2, 3, 4}, A, 16 if q else 28, durs=(0, 1, 2), scriptops=S, prealloc=False),
                  simulate=120 if q else 1500, depth=600, constraint="GenConstraintNT"),
         ],
